@@ -25,7 +25,7 @@ class Contract:
     def __init__(self, target, params=None, returns=None, requires=(), ensures=(), raises=None, modifies=(),
                  decreases=None, loops=None, generator=None, serves=(), assumed=False, kind=None, names=None,
                  ghost=None, replay=None, region=None, pure=False, reads_only=False, fresh_result=False,
-                 types=None, callbacks=None, inline=False, lemmas=(), notes='', exc_fields=None, canary=True):
+                 types=None, callbacks=None, inline=False, lemmas=(), notes='', exc_fields=None, canary=True, ghost_params=()):
         self.target = target                 # 'lark.utils:small_factors' / 'lark.lexer:LineCounter.feed'
         self.params = [(k, parse_type(v)) for k, v in (params or {}).items()]
         self.returns = parse_type(returns) if returns is not None else NONE
@@ -49,6 +49,7 @@ class Contract:
         self.lemmas = list(lemmas)
         self.notes = notes
         self.canary = canary
+        self.ghost_params = list(ghost_params)   # params that are not in the python signature (universally quantified spec inputs)
 
     @property
     def qualname(self):
@@ -106,6 +107,10 @@ class Registry:
         f = SpecFun(name, params, ret, **kw)
         self.specfuns[name] = f
         return f
+
+    def axiom(self, name, vars, body, patterns=()):
+        """assumed fact (builtin contract / definitional semantics), universally closed over vars; listed in the trusted base"""
+        self.axioms.append((name, [(k, parse_type(v)) for k, v in vars], body, list(patterns)))
 
     def lemma(self, name, params, **kw):
         l = Lemma(name, params, **kw)
